@@ -155,4 +155,6 @@ pub fn run(ctx: &mut Ctx) {
 
     // hidden per-thread state: two-step histories from the initial state
     crate::history::two_step_histories(ctx, "C10", crate::history::Family::Trunc);
+    crate::history::alternating_with_anchor(ctx, "C10", crate::history::Family::Trunc);
+    crate::history::first_call_in_fresh_process(ctx, "C10", crate::history::Family::Trunc);
 }
